@@ -1,13 +1,14 @@
 import HdVerif.Model.SegReadState
-/-! C02: a read's answer does not depend on what earlier calls left on the object (induction over histories). -/
+/-! C02: a read's answer does not depend on what earlier calls left on the object (induction over histories) — provided the
+code closes its query cursors on every exit; without that a kept exception changes later answers. -/
 namespace HdVerif.SegState
 open HdVerif
 
 structure ProgFacts (pre post : List TempOp) : Prop where
-  indep : ∀ f e, runOps f pre e = runOps f pre false
-  clean : runOps false pre false = (true, true)
-  fail : (runOps true pre false).1 = false
-  drops : runOps false post true = (true, false)
+  indep : ∀ f e, runOps f false pre e = runOps f false pre false
+  clean : runOps false false pre false = (true, true)
+  fail : (runOps true false pre false).1 = false
+  drops : runOps false false post true = (true, false)
 
 theorem progFacts_of_ok (pre post : List TempOp) (h : tempProgOk pre post = true) : ProgFacts pre post := by
   unfold tempProgOk at h
@@ -17,10 +18,10 @@ theorem progFacts_of_ok (pre post : List TempOp) (h : tempProgOk pre post = true
   intro f e
   cases f <;> cases e <;> first | rfl | exact h1 | exact h2
 
-/-- the loop before the `yield`: succeeds iff no INSERT fails, whatever existed before; then every table exists -/
+/-- the loop before the `yield`, no lock in force: succeeds iff no INSERT fails, whatever existed before; then every table exists -/
 theorem runAll_pre (pre post : List TempOp) (hp : ProgFacts pre post) (l : List (Bool × Bool)) :
-    (runAll pre l).1 = !(l.any (·.1)) ∧ ((runAll pre l).1 = true → (runAll pre l).2 = l.map (fun _ => true)) ∧
-      (runAll pre l).2.length = l.length := by
+    (runAll false pre l).1 = !(l.any (·.1)) ∧ ((runAll false pre l).1 = true → (runAll false pre l).2 = l.map (fun _ => true)) ∧
+      (runAll false pre l).2.length = l.length := by
   induction l with
   | nil => simp [runAll]
   | cons a t ih =>
@@ -38,9 +39,9 @@ theorem runAll_pre (pre post : List TempOp) (hp : ProgFacts pre post) (l : List 
       simp only [hf, Bool.false_eq_true, ↓reduceIte, List.any_cons, Bool.true_or, Bool.not_true, List.length_cons,
         List.length_map, false_implies, true_and]
 
-/-- the loop after the `yield` on tables that all exist: no error, nothing left -/
+/-- the loop after the `yield` on tables that all exist, no lock in force: no error, nothing left -/
 theorem runAll_post (pre post : List TempOp) (hp : ProgFacts pre post) (n : Nat) :
-    runAll post (List.replicate n (false, true)) = (true, List.replicate n false) := by
+    runAll false post (List.replicate n (false, true)) = (true, List.replicate n false) := by
   induction n with
   | zero => rfl
   | succ k ih =>
@@ -49,6 +50,15 @@ theorem runAll_post (pre post : List TempOp) (hp : ProgFacts pre post) (n : Nat)
     simp only
     rw [hp.drops]
     simp only [↓reduceIte, ih]
+
+theorem runAll_length (l : Bool) (prog : List TempOp) (xs : List (Bool × Bool)) : (runAll l prog xs).2.length = xs.length := by
+  induction xs with
+  | nil => rfl
+  | cons a t ih =>
+    obtain ⟨f, e⟩ := a
+    unfold runAll
+    simp only
+    split <;> simp [ih]
 
 theorem any_zip_fst (fails : List Bool) (db : List Bool) (h : db.length = fails.length) :
     ((fails.zip db).any (·.1)) = fails.any id := by
@@ -61,12 +71,14 @@ theorem any_zip_fst (fails : List Bool) (db : List Bool) (h : db.length = fails.
       simp only [List.zip_cons_cons, List.any_cons, id]
       rw [ih r (by simpa using h)]
 
-/-- **one read**: the answer is the stateless one, and the number of tables is kept -/
-theorem withTemp_answer {α} (g : Bool) (pre post : List TempOp) (hp : ProgFacts pre post) (fails db : List Bool)
-    (h : db.length = fails.length) (body : Except ErrKind α) :
-    (withTemp g pre post fails db body).1 = (if fails.any id then .error .other else body) ∧
-      (withTemp g pre post fails db body).2.length = fails.length := by
-  obtain ⟨h1, h2, h3⟩ := runAll_pre pre post hp (fails.zip db)
+/-- **one read on an object without a lock, by a program that closes its cursors**: the answer is the stateless one, the number
+of tables is kept, and no lock is left — whether or not the caller keeps the exception, wherever the read was refused -/
+theorem withTemp_answer {α} (P : Prog) (hp : ProgFacts P.pre P.post) (hc : P.closes = true) (fails db : List Bool)
+    (kept exhausted : Bool) (h : db.length = fails.length) (body : Except ErrKind α) :
+    (withTemp P fails kept exhausted db false body).1 = (if fails.any id then .error .other else body) ∧
+      (withTemp P fails kept exhausted db false body).2.1.length = fails.length ∧
+      (withTemp P fails kept exhausted db false body).2.2 = false := by
+  obtain ⟨h1, h2, h3⟩ := runAll_pre P.pre P.post hp (fails.zip db)
   have hz : (fails.zip db).length = fails.length := by simp [h]
   unfold withTemp
   simp only
@@ -74,49 +86,54 @@ theorem withTemp_answer {α} (g : Bool) (pre post : List TempOp) (hp : ProgFacts
   cases hany : fails.any id with
   | true =>
     rw [hany] at h1
-    have h1' : (runAll pre (fails.zip db)).1 = false := by simpa using h1
+    have h1' : (runAll false P.pre (fails.zip db)).1 = false := by simpa using h1
     simp only [h1', Bool.not_false, ↓reduceIte, h3, hz, and_self]
   | false =>
     rw [hany] at h1
-    have h1' : (runAll pre (fails.zip db)).1 = true := by simpa using h1
+    have h1' : (runAll false P.pre (fails.zip db)).1 = true := by simpa using h1
     have hall := h2 h1'
-    have hrep : (runAll pre (fails.zip db)).2 = List.replicate fails.length true := by
+    have hrep : (runAll false P.pre (fails.zip db)).2 = List.replicate fails.length true := by
       rw [hall, ← hz]
       exact List.map_const' ..
-    simp only [h1', Bool.not_true, Bool.false_eq_true, ↓reduceIte, hrep, List.map_replicate]
-    have hpost := runAll_post pre post hp fails.length
+    simp only [h1', Bool.not_true, Bool.false_eq_true, ↓reduceIte, hrep, List.map_replicate, hc, Bool.and_false,
+      Bool.false_and, Bool.or_false, Bool.or_self]
+    have hpost := runAll_post P.pre P.post hp fails.length
     cases body with
     | error e =>
-      refine ⟨rfl, ?_⟩
-      cases g
+      refine ⟨rfl, ?_, rfl⟩
+      cases P.guarded
       · simp
       · simp [hpost]
     | ok v => simp [hpost]
 
-/-- **histories**: whatever the object's state at the start, whatever was read (or refused) before, every answer is the
-stateless one — provided the frames taken from the cached array are the frames decoded one by one -/
-theorem run_stateless {α} (g : Bool) (pre post : List TempOp) (hp : ProgFacts pre post) (n : Nat) (ops : List (Op α))
-    (hlen : ∀ f d c, Op.read f d c ∈ ops → f.length = n) (hlaw : ∀ f d c, Op.read f d c ∈ ops → c = d)
-    (σ : ObjState) (hσ : σ.db.length = n) : run g pre post ops σ = ops.map stateless := by
+/-- **histories**: whatever tables are left behind and whether the pixel array is cached at the start, whatever was read (or
+refused, with the exception kept or not) before, every answer is the stateless one and no lock ever arises — provided the code
+closes its cursors (`P.closes`) and the frames taken from the cached array are the frames decoded one by one -/
+theorem run_stateless {α} (P : Prog) (hp : ProgFacts P.pre P.post) (hc : P.closes = true) (n : Nat) (ops : List (Op α))
+    (hlen : ∀ f k x d c, Op.read f k x d c ∈ ops → f.length = n) (hlaw : ∀ f k x d c, Op.read f k x d c ∈ ops → c = d)
+    (σ : ObjState) (hσ : σ.db.length = n) (hl : σ.locked = false) : run P ops σ = ops.map stateless := by
   induction ops generalizing σ with
   | nil => rfl
   | cons op rest ih =>
     unfold run
     simp only [List.map_cons]
+    have ih' := ih (fun f k x d c hm => hlen f k x d c (List.mem_cons_of_mem _ hm))
+      (fun f k x d c hm => hlaw f k x d c (List.mem_cons_of_mem _ hm))
     cases op with
     | touch =>
       simp only [step, stateless]
-      rw [ih (fun f d c hm => hlen f d c (List.mem_cons_of_mem _ hm)) (fun f d c hm => hlaw f d c (List.mem_cons_of_mem _ hm))
-        { σ with cached := true } hσ]
-    | read f d c =>
-      have hf := hlen f d c (by simp)
-      have hc := hlaw f d c (by simp)
-      subst hc
-      have hcc : (if σ.cached then c else c) = c := by simp
-      obtain ⟨ha, hl⟩ := withTemp_answer g pre post hp f σ.db (by rw [hσ, hf]) c
+      rw [ih' { σ with cached := true } hσ hl]
+    | release =>
       simp only [step, stateless]
-      rw [ih (fun f d c hm => hlen f d c (List.mem_cons_of_mem _ hm)) (fun f d c hm => hlaw f d c (List.mem_cons_of_mem _ hm))
-        _ (by simp only [hcc]; rw [hl, hf])]
-      simp only [hcc, ha]
+      rw [ih' { σ with locked := false } hσ rfl]
+    | read f k x d c =>
+      have hf := hlen f k x d c (by simp)
+      have hcd := hlaw f k x d c (by simp)
+      subst hcd
+      have hcc : (if σ.cached then c else c) = c := by simp
+      obtain ⟨ha, hlen', hlock⟩ := withTemp_answer P hp hc f σ.db k x (by rw [hσ, hf]) c
+      simp only [step, stateless, hl, hcc]
+      rw [ih' _ (by simp only; rw [hlen', hf]) (by simp only; exact hlock)]
+      simp only [ha]
 
 end HdVerif.SegState
